@@ -163,6 +163,7 @@ class World:
         sim = SimInverter(fr, {int(k): v for k, v in (s.get("regs") or {}).items()}, s.get("refused"), s.get("silent"),
                           {k: (bytes(v) if isinstance(v, (list, bytes)) else v) for k, v in (s.get("aa55") or {}).items()},
                           s.get("default", 0))
+        sim.oserr = [tuple(x) for x in (s.get("oserr") or [])]
         self.sims.append(sim)
         return sim
 
@@ -172,6 +173,17 @@ class World:
         sim = self.sims[i] if i < len(self.sims) else None
         if sim is None:
             return
+        if getattr(sim, "oserr", None):
+            # address ranges for which the NETWORK fails (not the inverter): ICMP port unreachable on UDP, reset on TCP
+            from . import frames as F
+            p = F.parse_request(sim.fr, data) or {}
+            reg = p.get("reg")
+            if reg is not None and any(lo <= reg <= hi for lo, hi in sim.oserr):
+                if tr.kind == "udp":
+                    tr.send_error(ConnectionRefusedError(111, "Connection refused"), self.delay)
+                else:
+                    tr.peer_close(self.delay, ConnectionResetError(104, "Connection reset by peer"))
+                return
         resp = sim.handle(data)
         if resp is not None:
             tr.deliver(resp, self.delay, "sim")
